@@ -45,8 +45,8 @@ META = {
                     'C09-D4, not here'],
     'decided': ['D1 ownership of the pending table',
                 'D2 register-before-send with timer; a call issued on a lost connection fails at once and is not registered',
-                'D3 completion => removed (before the Deferred fires) and timer cancelled',
-                'D4 correlation keys', 'D5 error discipline (incl. no value '
+                'D3 the deadline handler removes its entry on every path; completion => removed (before the Deferred fires) and timer cancelled',
+                'D4 correlation keys; a reply for a serial that is not pending is ignored (lookup default fits the unpacking)', 'D5 error discipline (incl. a declared return signature is compared for equality; no value '
                 'delivered before the declared signature was compared)',
                 'D7 reply-value convention on recognised paths'],
     'undecided': ['the actual interleavings of replies and deadlines',
@@ -615,6 +615,26 @@ def convention(ctx, cv):
                'is delivered as a value instead of failing with RemoteError',
                {'value': term_str(p.value)[:60],
                 'path': [(term_str(c)[:50], pol) for c, pol in p.cond[:6]]})
+        # ... and compared for EQUALITY when a non-empty signature was
+        # declared (`in` between two strings is a substring test: declared
+        # 'ii', reply 'i' would pass)
+        declared = rs in p.state.truthy or any(
+            c == rs and pol for c, pol in p.cond)
+        # the "do not check" sentinel is not a declaration
+        nocheck = any(kind(c) == 'cmp' and c[1] in ('==', '!=') and
+                      c[2] == rs and is_const(c[3]) and
+                      ((c[1] == '==') == pol) for c, pol in p.cond)
+        if declared and not nocheck:
+            eq = any(kind(c) == 'cmp' and c[1] in ('==', '!=') and
+                     {strip_sites(c[2]), strip_sites(c[3])} ==
+                     {strip_sites(sig), rs} and ((c[1] == '==') == pol)
+                     for c, pol in p.cond)
+            ctx.ob('C08.D5', cv.qualname, 'declared-signature-equal', eq,
+                   'with a declared return signature a value is delivered on '
+                   'a path that has not established reply signature == '
+                   'declared signature (tests on the path: %s)' % [
+                       term_str(c)[:50] for c, pol in p.cond
+                       if contains(c, lambda x: x == rs)][:3])
         v = p.value
         n += 1
         if v == NONE:
